@@ -378,12 +378,15 @@ inductive Clause where
   | matchPairs (ps : List (List Spec × Res))
   deriving Repr
 
-/-- The first clause goes through the mocker (`DefMocker.When/Return/Returns`, mocker.go:514–570, likewise
-    `MethodMocker`), which creates the `When`. -/
+/-- The first clause goes through the mocker (`DefMocker.When/Return/Returns`, mocker.go, likewise `MethodMocker`
+    and the interface mocker), which creates the `When`.  A first `Returns()` without any value is routed through
+    `Return()` (mocker.go:323,584): it is checked against the result count.  The mockers offer no `In` before a
+    `When`/`Return`; `.isIn` as first clause is `CreateWhen(.., nil, nil, ..)` used directly followed by `In`. -/
 def first (sig : Sig) : Clause → Except Err W
   | .ret cnt r => createWhen sig none (some (cnt, r))
   | .when specs => createWhen sig specs none
   | .isIn alts => do let w ← createWhen sig none none; w.isIn alts
+  | .returns [] => createWhen sig none (some (0, 0))
   | .returns rs => do
     if sig.numOut = 0 then throw Err.unmodelled
     let w ← createWhen sig none none; w.returns rs
